@@ -160,13 +160,17 @@ def c10_run(ctx):
 
 
 CHECK = {
-    "lean_modules": ["P3R.Props.C10", "P3R.Props.C10Full", "P3R.Props.C11Sched", "P3R.Props.C10Lanes"],
+    "lean_modules": ["P3R.Props.C10", "P3R.Props.C10Full", "P3R.Props.C11Sched", "P3R.Props.C10Lanes", "P3R.Props.C10Gen", "P3R.Witness.C04Gen"],
     "lean_exes": ["p3r_driver_c11"],
     "theorems": ["P3R.C10.record_row_add", "P3R.C10.record_row_mul", "P3R.C10.record_row_muladd", "P3R.C10.record_row_bool",
                  "P3R.C10.honest_bus_balanced",
                  # model-level completeness: the honest trace meets both acceptance conditions of C04.accepted_sat
                  "P3R.C10.holds_rowOk", "P3R.C10.honest_rows", "P3R.C10.honest_tupleNet", "P3R.C10.honest_bus",
                  "P3R.C10.honest_accepted", "P3R.C10.run_honest_accepted",
+                 # the same for every extension degree D (D coefficient cells per operand, D-tuples on the bus), under power-basis
+                 # independence (C11.CoeffIndep, proved for K[X]/(g)) — the converse of C04.accepted_sat_gen; D = 2 witness over F_49
+                 "P3R.C10.holds_rowOk_gen", "P3R.C10.honest_rows_gen", "P3R.C10.honest_tupleNet_gen", "P3R.C10.honest_bus_gen",
+                 "P3R.C10.honest_accepted_gen", "P3R.C10.run_honest_accepted_gen", "P3R.Witness.C04Gen.honest_rows_gen_nonvacuous",
                  # the scheduled / packed layout keeps every index's net multiplicity (proved over the schedule model of C11)
                  "P3R.C11.schedule_preserves_bus",
                  # lane-packed NPO main trace: the write loop of trace_to_matrix yields the op-major layout, every op present
@@ -174,13 +178,13 @@ CHECK = {
                  "P3R.NpoLanes.numRows_enough", "P3R.NpoLanes.matrix_cell", "P3R.NpoLanes.matrix_has_every_op", "P3R.NpoLanes.prep_cell"],
     "run": c10_run,
     "trusted_base": ["STARK completeness: a trace satisfying all row constraints with a balanced bus is provable (also exercised for real by every run)"],
-    "assumptions": ["BabyBear D=1 circuits of primitive ops and hints; the scheduled/packed ALU layout: bus preservation is proved over the Lean schedule model (C11.schedule_preserves_bus, model tied to the real AluAir by C11's run), the main-trace layout (intermediate accumulators) is tied by C11's scheduled-trace oracle"],
+    "assumptions": ["generated programs: BabyBear D=1 circuits of primitive ops and hints (the Lean completeness theorem run_honest_accepted_gen covers every extension degree D, given power-basis independence CoeffIndep and a coefficient map of the extension field); the scheduled/packed ALU layout: bus preservation is proved over the Lean schedule model (C11.schedule_preserves_bus, model tied to the real AluAir by C11's run), the main-trace layout (intermediate accumulators) is tied by C11's scheduled-trace oracle"],
 }
 
 MANIFEST_ENTRY = {
     "property_id": "C10", "quick_cmd": "bin/check C10 --tier quick", "thorough_cmd": "bin/check C10 --tier thorough",
     "evidence_file": "evidence/C10.json", "replay_cmd_template": "bin/check C10 --replay {path}", "engine": "lean-models",
     "technique": "Lean 4 theorems linking runner records to ALU row constraints and bus balance + real prove/verify of generated circuits",
-    "level_claimed": {"category": "proof", "text": "run_honest_accepted: a successful modelled run with satisfying inputs yields a trace whose row constraints vanish (ADD/MUL/BOOL/MUL_ADD/chained single-step HORNER, D=1) and whose WitnessChecks bus balances tuple by tuple — proved for every circuit with Horner chains and created read slots; the scheduled/packed part is proved over the schedule model and, like real prover success, exercised by proving and verifying every generated satisfying program.", "design_ref": "4/C10"},
+    "level_claimed": {"category": "proof", "text": "run_honest_accepted: a successful modelled run with satisfying inputs yields a trace whose row constraints vanish (ADD/MUL/BOOL/MUL_ADD/chained single-step HORNER) and whose WitnessChecks bus balances tuple by tuple — proved for every circuit with Horner chains and created read slots, for D = 1 (run_honest_accepted) and for every extension degree D with D coefficient cells per operand (run_honest_accepted_gen, under power-basis independence); the scheduled/packed part is proved over the schedule model and, like real prover success, exercised by proving and verifying every generated satisfying program.", "design_ref": "4/C10"},
     "level_note": "STARK completeness assumed and exercised; F7 (Horner steps that are not chains) repaired in /repo (build() rejects them); known finding F17 (unused private input) reported as KNOWN-FINDING; NPO tables: recompose lane packing only (Poseidon tables have one op per row)",
 }
